@@ -317,3 +317,28 @@ def c06_6(ctx):
     defs = [n.value for n in body_nodes(f.node) if isinstance(n, ast.Assign) and U(n.targets[0]) == 'item']
     if not defs or N(defs[0]) != 'items[key]':
         ctx.fail(f, f.node, 'find_ does not read the requested column of the selected rows')
+
+
+@obligation('C06.7', 'MATCH (prefix removal)', 'find_<col> dispatch in dictable.__getattr__',
+            'find_<col> addresses the column <col>: the column name is what follows the literal prefix `find_` (str.lstrip/strip take a CHARACTER SET, not a prefix, and eat leading f/i/n/d/_ of the column name itself)',
+            axioms=('A1',))
+def c06_7(ctx):
+    fn = ctx.repo.fn('_dictable:dictable.__getattr__')
+    br = [s for s in ast.walk(fn.node) if isinstance(s, ast.If) and N(s.test) == NS("attr.startswith('find_')")]
+    ctx.need(br, 'find_ branch of __getattr__ not found')
+    k = [s for s in br[0].body if isinstance(s, ast.Assign) and U(s.targets[0]) == 'key']
+    ctx.count(1, fn.where(br[0]))
+    if not k:
+        ctx.fail(fn, br[0], 'the column name is no longer derived from the attribute name')
+        return
+    v = N(k[0].value)
+    if v in ('attr[5:]', NS("attr[len('find_'):]"), NS("attr.removeprefix('find_')")):
+        return
+    if isinstance(k[0].value, ast.Call) and call_name(k[0].value) in ('lstrip', 'strip', 'rstrip'):
+        ctx.fail(fn, k[0], '`%s` strips a set of characters, not the prefix: find_name looks for column "ame", find_id for ""' % U(k[0].value), witness="dictable(name=['a']).find_name()")
+    elif isinstance(k[0].value, ast.Subscript) and isinstance(k[0].value.slice, ast.Slice) and const(k[0].value.slice.lower) not in (None, 5):
+        ctx.fail(fn, k[0], 'the prefix `find_` has 5 characters, the column name is taken as `%s`' % U(k[0].value))
+    elif isinstance(k[0].value, ast.Call) and call_name(k[0].value) == 'replace':
+        ctx.fail(fn, k[0], '`%s` removes every occurrence of the prefix text, also inside the column name' % U(k[0].value))
+    else:
+        raise AnalysisError('unrecognised derivation of the column name: %s' % U(k[0].value))
